@@ -1,3 +1,5 @@
+import BalmProofs.BlockSpec
+import Balm.Skip
 import BalmProofs.JudgeSpec
 import Balm.Impl.Cache
 /-! C14: `Balm.Cache.history_fresh` (every cached field carries the tag of the node's current successor
